@@ -8,7 +8,7 @@ from sympy import S, Add, Rational
 
 from adcgen import (Expr, Intermediates, reduce_expr, factor_intermediates)
 from adcgen.indices import get_symbols, Index
-from adcgen.sympy_objects import SymbolicTensor
+from adcgen.sympy_objects import SymbolicTensor, NonSymmetricTensor
 
 from ..gen import (BadCase, ALPHABET, build_term, syms, term_label_count,
                    label_class)
@@ -117,7 +117,50 @@ def st_term(draw, n_target, tier="thorough"):
 
 
 @st.composite
+def st_num_case(draw):
+    """orbital-energy numerators over (squared) amplitudes - what reduce_expr
+    meets after bringing terms with equal integrals onto a common
+    denominator: t1_{ijab}^n [t1_{ikac}^m x_{jkbc}] (bracket(s) + c e_q) w_q"""
+    i, j, k, a, b, c = "i2", "j2", "k2", "a2", "b2", "c2"
+    objs = [{"k": "T", "name": "t1", "u": [a, b], "l": [i, j], "bk": 0,
+             "exp": draw(st.sampled_from([1, 2, 2]))}]
+    num = [[i, 1], [j, 1], [a, -1], [b, -1]]
+    shape = draw(st.sampled_from(["rest", "rest", "two_brackets", "exact"]))
+    targets = []
+    if shape == "two_brackets":
+        objs.append({"k": "T", "name": "t1", "u": [a, c], "l": [i, k],
+                     "bk": 0, "exp": draw(st.sampled_from([1, 2]))})
+        objs.append({"k": "N", "name": "x", "u": [j, k, b, c], "l": [],
+                     "bk": 0, "exp": 1})
+        num += [[i, 1], [k, 1], [a, -1], [c, -1]]
+    else:
+        q = draw(st.sampled_from([k, c]))
+        if draw(st.booleans()):
+            objs.append({"k": "N", "name": "z", "u": [q], "l": [], "bk": 0,
+                         "exp": 1})
+        else:
+            targets = [q]
+        if shape == "rest":
+            num.append([q, draw(st.sampled_from([1, -1, 2]))])
+        elif targets:
+            objs.append({"k": "N", "name": "z", "u": [q], "l": [], "bk": 0,
+                         "exp": 1})
+    p = draw(st.sampled_from([1, 1, -1, 2, 3]))
+    q_ = draw(st.sampled_from([1, 2, 4]))
+    term = {"pref": [p, q_], "sqrt": 0, "syms": [], "objs": objs, "num": num}
+    return {"terms": [term], "targets": sorted(targets),
+            "req": draw(st.sampled_from(["reduce", "reduce",
+                                         "factor_reduced"])),
+            "itmds": draw(st.sampled_from([None, ["t2_1"], ["t_amplitude"]])),
+            "max_order": None,
+            "size": draw(st.sampled_from([[2, 2], [3, 2], [2, 3]])),
+            "mseed": draw(st.integers(0, 2**31))}
+
+
+@st.composite
 def st_case(draw, tier):
+    if draw(st.integers(0, 4)) == 0:
+        return draw(st_num_case())
     n_terms = draw(st.sampled_from([1, 1, 2, 3]))
     n_target = draw(st.integers(0, 2)) if n_terms == 1 else 0
     terms = []
@@ -208,6 +251,11 @@ def run_case(case):
     built = [build_term(t) for t in case["terms"]]
     if any(b == 0 for b in built):
         raise BadCase("vanishing term")
+    for k, t in enumerate(case["terms"]):
+        if t.get("num"):
+            built[k] = built[k] * Add(*[
+                cf * NonSymmetricTensor("e", (s_,)) for (lbl, cf), s_ in
+                zip(t["num"], syms([x[0] for x in t["num"]]))])
     targets = tuple(sorted(syms(case["targets"]), key=idx_key))
     e = Expr(Add(*built), real=True, sym_tensors=["p2", "p3", "t2sq"],
              target_idx=list(targets))
@@ -258,6 +306,8 @@ def run_case(case):
     else:
         r.nontrivial = changed and bool((v0 != 0).any())
     r.cls(req, "result_has_itmd" if has_itmd(out.sympy) else "no_itmd_left")
+    if any(t.get("num") for t in case["terms"]):
+        r.cls("orbital_energy_numerator")
     return r
 
 
